@@ -88,9 +88,11 @@ Required(e) ==
 \* a mutation of a valid document of version v: [kind, elem, attr]
 \*   none | requote | reorder | drop_attr | rename | foreign_elem | dup_child | unbalance
 \*   | no_xmldecl | no_doctype | bad_version | blank_first_line | doctype_quotes
-HeaderOK(m) == m.kind \notin {"no_xmldecl", "no_doctype", "bad_version", "blank_first_line"}
+\*   | bom | leading_space (bytes before the declaration) | header_ws (blanks / CR after it)
+HeaderOK(m) == m.kind \notin {"no_xmldecl", "no_doctype", "bad_version", "blank_first_line",
+                              "bom", "leading_space"}
 Accepts(v, m) ==
-  CASE m.kind \in {"none", "requote", "reorder", "doctype_quotes", "comment", "redump", "charref"} -> TRUE
+  CASE m.kind \in {"none", "requote", "reorder", "doctype_quotes", "comment", "redump", "charref", "header_ws"} -> TRUE
     [] m.kind = "drop_attr" -> m.attr \notin Required(m.elem)
     [] m.kind = "rename" -> FALSE
     [] m.kind = "foreign_elem" -> m.elem \in ElemsOf(v)
@@ -98,7 +100,7 @@ Accepts(v, m) ==
     [] m.kind = "unbalance" -> FALSE
     [] OTHER -> HeaderOK(m)
 \* mutations that leave the document's meaning untouched
-Neutral(m) == m.kind \in {"none", "requote", "reorder", "doctype_quotes", "comment", "redump", "charref"}
+Neutral(m) == m.kind \in {"none", "requote", "reorder", "doctype_quotes", "comment", "redump", "charref", "header_ws"}
 
 \* what the pinned writer lost in addition: the metadata of examples
 DropExampleMeta(P) == [P EXCEPT !.sex = {Put(r, 7, "~") : r \in @}, !.yex = {Put(r, 6, "~") : r \in @}]
